@@ -34,6 +34,8 @@ func (p PStmt) SQL() string {
 	switch p.Kind {
 	case "read":
 		return "SELECT k, v FROM t WHERE " + or(fmt.Sprintf("k = %d", p.K)) + ";"
+	case "readv":
+		return fmt.Sprintf("SELECT k, v FROM t WHERE v = %d;", p.Token)
 	case "readrange":
 		if p.Path == "scan" {
 			return fmt.Sprintf("SELECT k, v FROM t WHERE k = %d OR k = %d;", p.K, p.K2)
@@ -53,6 +55,8 @@ func (p PStmt) SQL() string {
 
 func (p PStmt) keys(rows int) []int32 {
 	switch p.Kind {
+	case "readv":
+		return nil
 	case "readrange", "writerange":
 		var ks []int32
 		if p.Path == "scan" && p.Kind == "readrange" {
@@ -77,20 +81,20 @@ type TxnProg struct {
 
 // one executed statement
 type HStmt struct {
-	Idx     int     `json:"idx"`
-	St      PStmt   `json:"stmt"`
-	Call    int64   `json:"call"`
-	Ret     int64   `json:"ret"`
-	Status  string  `json:"status"` // ok | aborted
-	Rows    [][]any `json:"rows,omitempty"`
+	Idx    int     `json:"idx"`
+	St     PStmt   `json:"stmt"`
+	Call   int64   `json:"call"`
+	Ret    int64   `json:"ret"`
+	Status string  `json:"status"` // ok | aborted
+	Rows   [][]any `json:"rows,omitempty"`
 }
 
 type HTxn struct {
-	ID         int     `json:"id"`
-	Stmts      []HStmt `json:"stmts"`
-	Outcome    string  `json:"outcome"` // committed | aborted | conflict-aborted
-	EndCall    int64   `json:"end_call"`
-	EndRet     int64   `json:"end_ret"`
+	ID      int     `json:"id"`
+	Stmts   []HStmt `json:"stmts"`
+	Outcome string  `json:"outcome"` // committed | aborted | conflict-aborted
+	EndCall int64   `json:"end_call"`
+	EndRet  int64   `json:"end_ret"`
 }
 
 func genProgs(r *rng, n int, rows int, nextToken *int32, nextKey *int32, allowInsDel bool) []TxnProg {
@@ -107,7 +111,20 @@ func genProgs(r *rng, n int, rows int, nextToken *int32, nextKey *int32, allowIn
 			switch x := r.Intn(10); {
 			case x <= 2:
 				st.Kind = "read"
+				if r.Chance(0.3) {
+					st.Path = "point" // plan-level index point scan
+				}
 				lastRead = k
+			case (x == 3 || x == 2) && r.Chance(0.6):
+				// read through the index on the value column (plan-level point scan or SQL)
+				st.Kind = "readv"
+				st.K = 0
+				if *nextToken > 1000 && r.Chance(0.35) {
+					st.Token = 1001 + int32(r.Intn(int(*nextToken-1000)))
+				} else {
+					st.Token = k
+				}
+				st.Path = []string{"", "point"}[r.Intn(2)]
 			case x == 3:
 				st.Kind = "readrange"
 				st.K2 = k + int32(r.Intn(2)) + 1
@@ -156,10 +173,10 @@ func genProgs(r *rng, n int, rows int, nextToken *int32, nextKey *int32, allowIn
 // ---------------------------------------------------------------- oracles over a history
 
 type txnOracle struct {
-	rows    int
-	init    map[int32]int32   // initial value per key
-	writer  map[int32]int     // token -> txn id (-1 initial)
-	hist    []HTxn
+	rows      int
+	init      map[int32]int32 // initial value per key
+	writer    map[int32]int   // token -> txn id (-1 initial)
+	hist      []HTxn
 	stmtLevel bool // statements did not overlap (single driver): exact visibility oracle applies
 }
 
@@ -171,7 +188,7 @@ func newOracle(rows int, hist []HTxn, stmtLevel bool) *txnOracle {
 	}
 	for _, t := range hist {
 		for _, s := range t.Stmts {
-			if s.St.Token != 0 {
+			if s.St.Token != 0 && s.St.Kind != "readv" {
 				o.writer[s.St.Token] = t.ID
 			}
 		}
@@ -291,12 +308,16 @@ func (o *txnOracle) c04() []Violation {
 				for _, k := range s.St.keys(o.rows) {
 					ownDel[k] = true
 				}
-			case "read", "readrange":
+			case "read", "readrange", "readv":
 				seen := map[int32]bool{}
 				for _, r := range s.Rows {
 					k, _ := r[0].(int32)
 					v, _ := r[1].(int32)
 					seen[k] = true
+					if s.St.Kind == "readv" && v != s.St.Token {
+						add("answer-violates-predicate", fmt.Sprintf("txn %d %s returned (%d,%d)", t.ID, s.St.SQL(), k, v))
+						continue
+					}
 					if tok, ok := own[k]; ok && tok == v {
 						continue // own write
 					}
@@ -439,7 +460,7 @@ func (o *txnOracle) c05() []Violation {
 				for _, k := range s.St.keys(o.rows) {
 					wrote[k] = true
 				}
-			case "read", "readrange":
+			case "read", "readrange", "readv":
 				for _, r := range s.Rows {
 					k, _ := r[0].(int32)
 					v, _ := r[1].(int32)
@@ -520,23 +541,24 @@ func (o *txnOracle) c05() []Violation {
 // ---------------------------------------------------------------- txnsim: statement-granularity interleavings (single driver)
 
 type TxnSimCfg struct {
-	Rows    int       `json:"rows"`
-	Progs   []TxnProg `json:"progs"`
-	Order   []int     `json:"order"` // interleaving: sequence of txn indexes (one entry per step: stmt or end)
-	Frames  int       `json:"frames"`
-	Stats   bool      `json:"stats"` // refresh statistics after set-up (index paths)
-	MapPermute bool   `json:"map_permute"`
+	Rows       int       `json:"rows"`
+	Progs      []TxnProg `json:"progs"`
+	Order      []int     `json:"order"` // interleaving: sequence of txn indexes (one entry per step: stmt or end)
+	Frames     int       `json:"frames"`
+	Stats      bool      `json:"stats"` // refresh statistics after set-up (index paths)
+	MapPermute bool      `json:"map_permute"`
 }
 
 type txnSimResult struct {
-	hist   []HTxn
-	final  [][]any
-	viol   []Violation
+	hist       []HTxn
+	final      [][]any
+	viol       []Violation
 	infeasible string
-	plans  map[string]int
+	plans      map[string]int
 }
 
 func execTxnSim(seed uint64, cfg TxnSimCfg, dir string) (res txnSimResult) {
+	progressTick()
 	res.plans = map[string]int{}
 	path := dir + "/db"
 	removeDBFiles(path)
@@ -591,7 +613,7 @@ func execTxnSim(seed uint64, cfg TxnSimCfg, dir string) (res txnSimResult) {
 			st := prog.Stmts[pos[ti]]
 			step++
 			hs := HStmt{Idx: pos[ti], St: st, Call: step}
-			r := txns[ti].Exec(st.SQL())
+			r := execPStmt(txns[ti], st)
 			step++
 			hs.Ret = step
 			if r.Plan != "" {
@@ -890,4 +912,15 @@ func runTxnSim(run int, seed uint64) RunReport {
 		rep.Outcome = "violation"
 	}
 	return rep
+}
+
+// execPStmt runs a program statement: SQL through the planner, or the plan-level point scan.
+func execPStmt(t *STxn, st PStmt) ExecResult {
+	if st.Kind == "read" && st.Path == "point" {
+		return t.PointScan("t", "k", st.K)
+	}
+	if st.Kind == "readv" && st.Path == "point" {
+		return t.PointScan("t", "v", st.Token)
+	}
+	return t.Exec(st.SQL())
 }
